@@ -302,6 +302,10 @@ class R:
                     return NormOverZero(R(q=Fraction(0)))     # 0/0 = nan (numpy semantics; comparisons are False)
                 raise ZeroDivisionError("symx: division by concrete zero")
             return self * R(q=1 / o2.q)
+        if self.q is None and type(self) is R and type(o2) is R and self.d == o2.d \
+                and self._n is not None and o2._n is not None and self._n.get_id() == o2._n.get_id():
+            o2.reciprocal()             # x / x with the very same term: 1 wherever defined (divisor guarded non-zero as usual)
+            return R(q=Fraction(1))
         return _cancel(self * o2.reciprocal())
 
     def __rtruediv__(self, o):
@@ -690,6 +694,12 @@ def _zero():
     return R(q=Fraction(0))
 
 
+def _same_term(a, b):
+    """True if two R values are syntactically the same symbolic fraction (same numerator term, same denominators)."""
+    return type(a) is R and type(b) is R and a.q is None and b.q is None and a.d == b.d \
+        and a._n is not None and b._n is not None and a._n.get_id() == b._n.get_id()
+
+
 class C:
     """Complex scalar (pair of R)."""
     __slots__ = ("re", "im")
@@ -766,6 +776,9 @@ class C:
             return NotImplemented
         if o.im.q is not None and o.im.q == 0:
             return C(self.re / o.re, self.im / o.re)
+        if _same_term(self.re, o.re) and _same_term(self.im, o.im):
+            o.reciprocal()              # z / z with the very same terms: 1 wherever defined (guards registered as usual)
+            return C(R(q=Fraction(1)), R(q=Fraction(0)))
         return self * o.reciprocal()
 
     def __rtruediv__(self, o):
@@ -790,6 +803,17 @@ class C:
         return (self.re * self.re + self.im * self.im).sqrt()
 
     def sqrt(self):
+        # a complex value whose imaginary part is identically zero (e.g. v @ v.conj()): principal root of the real part
+        im = self.im
+        if im.q is None and not im.d:
+            try:
+                s = z3.simplify(im.n, som=True)
+                if z3.is_rational_value(s) and s.as_fraction() == 0:
+                    im = R(q=Fraction(0))
+            except z3.Z3Exception:
+                pass
+        if im.q is not None and im.q == 0:
+            return C(self.re.sqrt(), R(q=Fraction(0)))
         raise TypeError("symx: sqrt of a complex symbolic value (encoding gap)")
 
     def _rel(self, o, op):
